@@ -58,6 +58,11 @@ def expected_meta(ns: Namespace) -> dict:
     return {k: conv(v) for k, v in d.items()}
 
 
+def nm(name: str) -> str:
+    """injective ASCII form of a run name for the trace (TLC compares names as strings)"""
+    return name.encode("unicode_escape").decode("ascii")
+
+
 def same_json(a, b):
     return json.dumps(a, sort_keys=True) == json.dumps(b, sort_keys=True)
 
@@ -83,7 +88,7 @@ def read_file(path: Path, tk: Tokens, metas: dict):
             return 0, []
         exp = metas.get(name)
         got = {k: v for k, v in raw[name]["metadata"].items()}
-        recs.append({"name": name, "dshape": ds, "dflat": df, "ashape": as_, "aflat": af,
+        recs.append({"name": nm(name), "dshape": ds, "dflat": df, "ashape": as_, "aflat": af,
                      "meta_ok": int(exp is None or same_json(got, exp)) if agree else 0, "f64": int(o.data.dtype == np.float64)})
     return 1, recs
 
@@ -114,18 +119,34 @@ def random_output(rng, name, finite=False):
     return Output(data, actions, ns)
 
 
+CONFUSABLE = [["konvexn\u00ed", "konvexni\u0301", "konvexni"],                 # composed / decomposed / bare
+              ["Run0", "run0", "RUN0"],
+              ["run0 ", " run0", "run 0", "run0\t"],
+              ["1", "1.0", "01", "1e0", "+1"],
+              ["\uff21lpha", "Alpha", "\u0391lpha"],                          # fullwidth / Latin / Greek capital A
+              ["run0.", "run0.png", "run0.json", "run0.tmp"],
+              ["null", "true", "NaN", "None", ""],
+              ["x" * 120, "x" * 121],
+              ["\u212bngstr\u00f6m", "\u00c5ngstr\u00f6m", "A\u030angstro\u0308m"],   # Angstrom sign / composed / decomposed
+              ["data", "data.json", "metadata", "actions"]]
+
+
 def save_trace(tid, rng, root: Path, nsaves):
     shutil.rmtree(root, ignore_errors=True)
     root.mkdir(parents=True)
     tk = Tokens()
     metas = {}
     names = [f"run{j}" for j in range(max(2, nsaves // 2))] + ["x/y", "naïve name", "1", "v1.0", "v1.1", "alpha_0.25", "alpha_0.5", "a.b.c", ".hidden"]
+    # groups of names that are DIFFERENT strings although something might take them for the same (seed C19-d: Unicode normalisation):
+    # every member of two groups per trace, so that both spellings meet in one file
+    for grp in rng.sample(CONFUSABLE, 2):
+        names += grp
     events = []
     use_save = rng.random() < 0.4
     path = (root / "m" / "data.json") if use_save else (root / "data.json")
     for _ in range(nsaves):
         name = rng.choice(names)
-        if use_save and "/" in name:
+        if use_save and ("/" in name or name == "" or len(name) > 100):
             name = "plain"
         out = random_output(rng, name, finite=use_save)
         ds, df = tk.mat(out.data)                  # what is handed to the save, recorded BEFORE the call
@@ -141,7 +162,7 @@ def save_trace(tid, rng, root: Path, nsaves):
         if name not in metas:
             metas[name] = expected_meta(out.parsed_args)
         readable, recs = read_file(path, tk, metas)
-        events.append({"op": "save" if use_save else "save_json", "name": name, "exc": exc, "readable": readable, "produced_same": -1,
+        events.append({"op": "save" if use_save else "save_json", "name": nm(name), "exc": exc, "readable": readable, "produced_same": -1,
                        "entry": {"dshape": ds, "dflat": df, "ashape": as_, "aflat": af}, "file": recs})
     return {"tid": tid, "kind": "saves", "init": [], "events": events}
 
@@ -210,7 +231,7 @@ def command_trace(tid, rng, root: Path, seed):
             else:
                 ds, df, as_, af = [0], [], [0], []
             readable, recs = read_file(path, tk, metas)
-            events.append({"op": cmd, "name": name, "exc": exc, "readable": readable, "produced_same": produced_same,
+            events.append({"op": cmd, "name": nm(name), "exc": exc, "readable": readable, "produced_same": produced_same,
                            "entry": {"dshape": ds, "dflat": df, "ashape": as_, "aflat": af}, "file": recs})
     finally:
         SO.evaluate, GR.get_greedy_rewards, BS.get_best_exploitability = real_eval, real_greedy, real_best
